@@ -92,11 +92,11 @@ Section Sim.
 
   (* ---- the continuation read off the stack ------------------------------------------------------ *)
   (* the terminal result once the root frame is done; it is told the root declaration *)
-  Variable fin : decl -> list unt -> term.
+  Variable fin : decl -> list unt -> res.
 
   Fixpoint Kopen (opens : list entry) (ld : decl) (extra : list inst) (us : list unt) : res :=
     match opens with
-    | [] => ([], fin ld us)
+    | [] => fin ld us
     | p :: b =>
         match e_node p with
         | None => ([], TPanic 0)
@@ -159,7 +159,8 @@ Section Sim.
   (* ---- the invariant of loop-head states ---------------------------------------------------------- *)
   Definition has_node (p : entry) : Prop := exists nm ids ks, e_node p = Some (I nm ids ks).
   Definition is_bottom (p : entry) : Prop :=
-    e_occ p = 0 /\ d_min (e_decl p) = 1 /\ d_max (e_decl p) = Some 1.
+    d_grp (e_decl p) = true /\ d_tgt (e_decl p) = false /\
+    d_min (e_decl p) = 1 /\ d_max (e_decl p) = Some 1.
 
   (* the frames below the top: each is an instance in progress whose current child is the frame
      above it *)
@@ -184,7 +185,8 @@ Section Sim.
     | top :: opens =>
         WF (e_decl top) /\ e_cur top = 0 /\ opens_ok (e_decl top) opens /\ tp (map e_decl stk) /\
         match opens with
-        | [] => lt_max (e_occ top) (d_max (e_decl top)) = false /\ (e_occ top <? d_min (e_decl top)) = false
+        | [] => is_bottom top /\
+                lt_max (e_occ top) (d_max (e_decl top)) = false /\ (e_occ top <? d_min (e_decl top)) = false
         | _ :: _ => lt_max (e_occ top) (d_max (e_decl top)) = true
         end
     end.
@@ -237,7 +239,7 @@ Section Sim.
   Proof.
     induction b as [|q b' IH]; intros p tgt us nm ids ks Hn Hwf Hop Htp Hq Hbot.
     - (* only the root frame *)
-      destruct (Hbot eq_refl) as (Ho & Hmin & Hmax).
+      pose proof (Hbot eq_refl) as Hb0. destruct Hb0 as (Hgrp & Htg0 & Hmin & Hmax).
       assert (Htg : exists tgt1, (if d_tgt (e_decl p)
                  then match tgt with Some _ => inl P_TARGET_SET
                       | None => match e_node p with None => inl P_NODE_NIL | Some n => inr (Some n) end end
@@ -253,8 +255,8 @@ Section Sim.
       + cbn [rec_done]. rewrite Htg. reflexivity.
       + cbn [InvS e_decl e_cur e_occ map]. repeat split; auto.
         * destruct Htp as [Htp _]. exact Htp.
-        * rewrite Ho, Hmax. reflexivity.
-        * rewrite Ho, Hmin. reflexivity.
+        * rewrite Hmax. reflexivity.
+        * rewrite Hmin. reflexivity.
       + cbn [Ktop e_decl e_occ Kopen]. rewrite Htl, <- app_res_app. reflexivity.
     - (* a parent frame q below *)
       destruct Hop as (Hqn & Hnth & Hwq & Hqbot & Hop').
@@ -449,14 +451,14 @@ Section Sim.
   Definition std_fin (us : list unt) : term := match us with [] => TEof | _ :: _ => TErrUnexpected end.
 
   Lemma Ktop_single : forall top us,
-    InvS [top] -> Ktop [top] us = ([], fin (e_decl top) us).
+    InvS [top] -> Ktop [top] us = fin (e_decl top) us.
   Proof.
-    intros top us (_ & _ & _ & _ & Hlt & Hmin). cbn [Ktop].
+    intros top us (_ & _ & _ & _ & _ & Hlt & Hmin). cbn [Ktop].
     rewrite mbind_occ_S, Hlt, Hmin. reflexivity.
   Qed.
 
   Lemma hstep_K : forall st, InvS (m_stk st) -> m_tgt st = None ->
-    (forall top, m_stk st = [top] -> fin (e_decl top) (m_rest st) = std_fin (m_rest st)) ->
+    (forall top, m_stk st = [top] -> fin (e_decl top) (m_rest st) = ([], std_fin (m_rest st))) ->
     match hstep try_leaf st with
     | Cont st' => InvS (m_stk st') /\ Kst st' = Kst st
     | Ret (OTerm t) _ => Kst st = ([], t)
